@@ -209,6 +209,47 @@ def check_class_level_writes(ctx, rule='A11c'):
     return n
 
 
+def _effective_keywords(prog, f, call):
+    """(name, value, function the value is evaluated in) for the keywords of a call, expanding `**self.m(...)`
+    where m returns a dict display with constant keys (a state-bundling helper)."""
+    for kw in call.keywords:
+        if kw.arg is not None:
+            yield kw.arg, kw.value, f
+            continue
+        v = kw.value
+        if isinstance(v, ast.Call) and isinstance(v.func, ast.Attribute) and isinstance(v.func.value, ast.Name) and v.func.value.id == 'self' and \
+                f.owner_class is not None:
+            m = next((c.methods[v.func.attr] for c in prog.mro(f.owner_class) if v.func.attr in c.methods), None)
+            if m is None:
+                continue
+            for sub in walk_fn(m):
+                if isinstance(sub, ast.Return) and isinstance(sub.value, ast.Dict):
+                    for k, val in zip(sub.value.keys, sub.value.values):
+                        if isinstance(k, ast.Constant) and isinstance(k.value, str):
+                            yield k.value, val, m
+                elif isinstance(sub, ast.Return) and isinstance(sub.value, ast.Call) and \
+                        isinstance(sub.value.func, ast.Name) and sub.value.func.id == 'dict':
+                    for k2 in sub.value.keywords:
+                        if k2.arg is not None:
+                            yield k2.arg, k2.value, m
+
+
+def _fresh_value(f, v):
+    if isinstance(v, ast.Name):
+        defs = [s for s in walk_fn(f) if isinstance(s, ast.Assign) and norm(s.targets[0]) == v.id]
+        return bool(defs) and all(
+            (isinstance(d.value, ast.Call) and (
+                (isinstance(d.value.func, ast.Attribute) and d.value.func.attr in ('copy', '_get_empty_graph')) or
+                (isinstance(d.value.func, ast.Name) and d.value.func.id in ('list', 'dict', 'set')))) or
+            (isinstance(d.value, ast.IfExp) and 'inplace' in norm(d.value.test))
+            for d in defs)
+    if isinstance(v, ast.Call) and isinstance(v.func, ast.Attribute) and v.func.attr == 'copy':
+        return True
+    if isinstance(v, ast.Call) and isinstance(v.func, ast.Name) and v.func.id in ('list', 'dict', 'set'):
+        return True
+    return False
+
+
 def check_constructor_store(ctx, cls_key=DSG, rule='A11s'):
     """Containers of a graph that are mutated in place somewhere must not be shared between an existing and a
     new graph object: the constructor copies its argument, or every constructor call passes a fresh object."""
@@ -267,26 +308,10 @@ def check_constructor_store(ctx, cls_key=DSG, rule='A11s'):
                     for call in calls(f):
                         if not (isinstance(call.func, ast.Attribute) and norm(call.func) == 'self.__class__'):
                             continue
-                        for kw in call.keywords:
-                            if kw.arg == p:
+                        for kw_arg, v, vf in _effective_keywords(prog, f, call):
+                            if kw_arg == p:
                                 sites += 1
-                                v = kw.value
-                                fresh = False
-                                if isinstance(v, ast.Name):
-                                    defs = [s for s in walk_fn(f) if isinstance(s, ast.Assign) and
-                                            norm(s.targets[0]) == v.id]
-                                    fresh = bool(defs) and all(
-                                        (isinstance(d.value, ast.Call) and (
-                                            (isinstance(d.value.func, ast.Attribute) and
-                                             d.value.func.attr in ('copy', '_get_empty_graph')) or
-                                            (isinstance(d.value.func, ast.Name) and d.value.func.id in
-                                             ('list', 'dict', 'set')))) or
-                                        (isinstance(d.value, ast.IfExp) and 'inplace' in norm(d.value.test))
-                                        for d in defs)
-                                elif isinstance(v, ast.Call) and isinstance(v.func, ast.Attribute) and \
-                                        v.func.attr == 'copy':
-                                    fresh = True
-                                if not fresh:
+                                if not _fresh_value(vf, v):
                                     bad.append((f, call, v))
                 info_only = [b for b in bad if b[0].name == 'get_for_kept_edges']
                 real = [b for b in bad if b[0].name != 'get_for_kept_edges']
